@@ -203,7 +203,7 @@ def event_sets(pname, taus, thorough):
 
 
 def cells(quick):
-    scales = [1e-6, 1e-3, 1.0, 1e3, 1e6] if quick else [10.0 ** e for e in range(-6, 7)]
+    scales = [1e-15, 1e-6, 1e-3, 1.0, 1e3, 1e6] if quick else [1e-18, 1e-15, 1e-12, 1e-9] + [10.0 ** e for e in range(-6, 7)]
     out = []
     for pname, spans, dt0 in (("lin", LIN_SPANS, 0.5), ("osc", OSC_SPANS, 0.25)):
         for span, taus in spans.items():
